@@ -2,7 +2,7 @@
 import importlib
 
 MODULES = {
-    "C01": "harness.c01", "C04": "harness.c04", "C02": "harness.c02", "C03": "harness.c03", "C08": "harness.c08", "C13": "harness.c13", "C14": "harness.c14", "C15": "harness.c15", "C16": "harness.c16", "C17": "harness.c17", "C18": "harness.c18", "C19": "harness.c19", "C20": "harness.c20",
+    "C01": "harness.c01", "C04": "harness.c04", "C02": "harness.c02", "C03": "harness.c03", "C08": "harness.c08", "C09": "harness.c09", "C13": "harness.c13", "C14": "harness.c14", "C15": "harness.c15", "C16": "harness.c16", "C17": "harness.c17", "C18": "harness.c18", "C19": "harness.c19", "C20": "harness.c20",
     "C06": "harness.c06", "C07": "harness.c07", "C10": "harness.c10", "C11": "harness.c11", "C12": "harness.c12",
 }
 
